@@ -452,3 +452,28 @@ def module_of(repo: Repo, node) -> Module:
         if m.tree is cur:
             return m
     raise AnalysisError("node does not belong to a loaded module")
+
+
+def symbolic_return(fn) -> Optional[str]:
+    """For a straight-line function body (assignments then one return): the returned expression with local names
+    replaced by the expressions they were assigned (in order), as normalised text.  None if the body has another shape."""
+    import copy as _copy
+
+    env: Dict[str, ast.AST] = {}
+
+    class Sub(ast.NodeTransformer):
+        def visit_Name(self, node):
+            if isinstance(node.ctx, ast.Load) and node.id in env:
+                return _copy.deepcopy(env[node.id])
+            return node
+
+    for st in fn.body:
+        if isinstance(st, ast.Expr) and isinstance(st.value, ast.Constant):
+            continue
+        if isinstance(st, ast.Assign) and len(st.targets) == 1 and isinstance(st.targets[0], ast.Name):
+            env[st.targets[0].id] = Sub().visit(_copy.deepcopy(st.value))
+            continue
+        if isinstance(st, ast.Return) and st.value is not None:
+            return norm(Sub().visit(_copy.deepcopy(st.value)))
+        return None
+    return None
